@@ -123,6 +123,22 @@ static std::string unquote(const std::string &s)
 }
 
 
+/**
+ * Address that follows clang's redeclaration marker ("prev 0x...") or "" if the node is not a
+ * redeclaration. The marker stands before the source range; a declaration that is merely NAMED
+ * "prev" has the word after the range and is not followed by an address.
+ */
+static std::string getPrevDeclAddr(const std::vector<std::string> &extTokens)
+{
+    for (std::size_t i = 1; i + 1 < extTokens.size(); ++i) {
+        if (startsWith(extTokens[i], "<"))
+            break;
+        if (extTokens[i] == "prev" && startsWith(extTokens[i + 1], "0x"))
+            return extTokens[i + 1];
+    }
+    return "";
+}
+
 static std::vector<std::string> splitString(const std::string &line)
 {
     std::vector<std::string> ret;
@@ -942,10 +958,9 @@ Token *clangimport::AstNode::createTokens(TokenList &tokenList)
         return nullptr;
     }
     if (nodeType == CXXMethodDecl) {
-        for (std::size_t i = 0; i+1 < mExtTokens.size(); ++i) {
-            if (mExtTokens[i] == "prev" && !mData->hasDecl(mExtTokens[i+1]))
-                return nullptr;
-        }
+        const std::string prevAddr = getPrevDeclAddr(mExtTokens);
+        if (!prevAddr.empty() && !mData->hasDecl(prevAddr))
+            return nullptr;
         createTokensFunctionDecl(tokenList);
         return nullptr;
     }
@@ -1364,7 +1379,8 @@ Token * clangimport::AstNode::createTokensCall(TokenList &tokenList)
 
 void clangimport::AstNode::createTokensFunctionDecl(TokenList &tokenList)
 {
-    const bool prev = contains(mExtTokens, "prev");
+    const std::string prevAddr = getPrevDeclAddr(mExtTokens);
+    const bool prev = !prevAddr.empty();
     const bool hasBody = !children.empty() && children.back()->nodeType == CompoundStmt;
     const bool isStatic = contains(mExtTokens, "static");
     const bool isInline = contains(mExtTokens, "inline");
@@ -1389,8 +1405,7 @@ void clangimport::AstNode::createTokensFunctionDecl(TokenList &tokenList)
     auto *nestedIn = const_cast<Scope *>(nameToken->scope());
 
     if (prev) {
-        const std::string addr = *(std::find(mExtTokens.cbegin(), mExtTokens.cend(), "prev") + 1);
-        mData->ref(addr, nameToken);
+        mData->ref(prevAddr, nameToken);
     }
     if (!nameToken->function()) {
         nestedIn->functionList.emplace_back(nameToken, unquote(getFullType()));
